@@ -3,6 +3,17 @@
 import json, subprocess, collections
 
 CLAIMS = {
+ "C13": dict(
+   text="Sound static argument by exclusion: a single-goroutine Go program is deterministic unless it observes map iteration order, scheduling, clocks/randomness/OS state, finalizers or address-derived values. Every function of the six library packages is scanned (resolved callees, SSA instructions) for each of these sources; map ranges are admitted only with an order-insensitive body. A fixture of known-bad and known-good functions is analysed on every run, so a blind rule fails the check.",
+   note="Assumes memory safety of the unsafe accesses and determinism of reflect/fmt for the values passed; does not decide that the deterministic algorithms compute the documented results. GC timing cannot influence results because no finalizer, sync.Pool or address-derived value is used.",
+   technique="static analysis: exclusion of nondeterminism sources over all functions (go/ssa scan with resolved callees) + fixture control",
+   ref="§2 C13"),
+ "C19": dict(
+   text="Static who-may-write analysis: every package-level variable of the six packages has an immutable type or is a verified never-executed escape sink, and no function other than a package initialiser writes one (mod-sets rooted at globals); no goroutines, channels, sync/atomic; no standard-library callee with process-global mutable state; worlds never adopt caller-owned slices. With all state hanging off World and callers not sharing listeners/filters/component pointers, operations on distinct worlds touch disjoint memory. Fixture control on every run.",
+   note="Does not explore schedules or detect races dynamically; assumes package reflect is safe for concurrent use and that callers do not share Listener/Filter/component pointers between worlds.",
+   technique="static analysis: global-rooted mod-sets, type classification of package-level variables, instruction scan; fixture control",
+   ref="§2 C19"),
+
  "C16": dict(
    text="Static rules: an interval evaluation of the integer def-use chain from the registry's type count / a fresh id to every allocation of a table's layout array shows that no conversion or narrow addition can wrap for MaskTotalBits of the build (this is the check that reports the uint8 overflow for ids >= 240); the undo of a registration writes every field the registration writes; both relation-type tests agree; accessors use their own registry; the rollback under lock is complete; layout extension reaches every table.",
    note="Axioms of the interval evaluation (count <= MaskTotalBits, fresh id < MaskTotalBits) rest on the limit guard checked by R2. Does not decide id density/stability over histories nor that high ids work beyond the capacity chain.",
